@@ -69,7 +69,7 @@ def run(chk):
     dist = dict(bias={}, bs={}, wait={}, end_marker={}, lazy_time=0, deadline_ties_item_taken=0, deadline_ties_item_missed=0,
                 taken_past_deadline=0, short_by_timeout=0, short_by_marker=0, full=0, never_ended=0, holds=0)
     # thorough: several rounds so that the results of one round can be dropped before the next
-    rounds = [10000] if chk.tier == 'quick' else [40000] * 8
+    rounds = [6000] if chk.tier == 'quick' else [40000] * 8
     for k, n in enumerate(rounds):
         results = core.e1_flow(chk, 'scen_eager', 'eager', {'C19'},
                                lambda rng: scen_eager.gen_case(rng, chk.tier), n, keyfn=keyfn,
